@@ -453,8 +453,14 @@ package otp
 //@   ensures[fresh] err == nil ==> fresh(r)
 
 //@ func otp.GenerateHOTPURL(param) (r, err)
+//@   ensures[verdict] (err == nil && r != nil) || (err != nil && r == nil)
 //@   ensures[iff] err == nil <==> urlok(param)
 //@   ensures[fields] err == nil ==> urlfields(r, "hotp", param)
 //@ func otp.GenerateTOTPURL(param) (r, err)
+//@   ensures[verdict] (err == nil && r != nil) || (err != nil && r == nil)
 //@   ensures[iff] err == nil <==> urlok(param)
 //@   ensures[fields] err == nil ==> urlfields(r, "totp", param)
+
+// documented panic on an unknown or invalid suite string (excluded from C10); on return the registered configuration
+//@ func otp.MustRawSuite(raw) (r)
+//@   ensures maphas(knownSuites, raw) ==> samecfg(r.SuiteConfig, mapget(knownSuites, raw)) && r.SuiteConfig.Raw == raw
